@@ -49,9 +49,20 @@ Diff(a, b) == {fld \in Fields : Abs(fld, a[fld]) # Abs(fld, b[fld])}
                (StrictTestament), t3l t3s (StrictTestament3). *)
 Keys == {"t1l", "t1s", "t2l", "t2s", "t3l", "t3s"}
 PlainKeys == {"t1l", "t1s"}
+RootKeys == {"t3l", "t3s"}
 Same(o, k) == o.a[k] = o.b[k]
+(* StrictTestament3 also attests the tree ROOT with its last-changed revision.  That value is defined by the format the
+   revision was COMMITTED in: formats without rich roots (pack-0.92) do not version the root, it always counts as changed
+   by the revision itself - and keeps that value when the revision is fetched into a rich-root repository; a rich-root
+   format (2a) records the root like any other entry: unchanged from a single parent it keeps the parent's value, with no
+   parent or with two parents whose roots have different last-changed revisions it is the revision itself.  So the root
+   datum is a function of (storage variant's origin, number of parents) and part of the attested data of that form. *)
+Origin(v) == IF v \in {"pack-0.92", "fetched"} THEN "plain-root" ELSE "rich-root"
+RootRev(r, v) == IF Origin(v) = "plain-root" \/ Cardinality(Abs("parents", r["parents"])) # 1 THEN "self" ELSE "parent"
 \* equal attested data => equal text, whatever the storage
-LawDeterministic(c, o) == Diff(c.a, c.b) = {} => \A k \in Keys : Same(o, k)
+LawDeterministic(c, o) ==
+    Diff(c.a, c.b) = {} => /\ \A k \in Keys \ RootKeys : Same(o, k)
+                           /\ RootRev(c.a, c.va) = RootRev(c.b, c.vb) => \A k \in RootKeys : Same(o, k)
 \* exactly one attested field differs => different text
 LawSensitive(c, o) == (Cardinality(Diff(c.a, c.b)) = 1 /\ ~ (Diff(c.a, c.b) \subseteq ExecFields)) => \A k \in Keys : ~Same(o, k)
 LawExecStrict(c, o) == (Cardinality(Diff(c.a, c.b)) = 1 /\ Diff(c.a, c.b) \subseteq ExecFields) => \A k \in Keys \ PlainKeys : ~Same(o, k)
@@ -68,6 +79,7 @@ Law(n, c, o) == CASE n = "deterministic" -> LawDeterministic(c, o) [] n = "sensi
 Failed(c, o) == {n \in Set(LawNames) : ~Law(n, c, o)}
 
 \* the specification's own "texts": the attested values themselves (injective by construction)
-SpecText(r, k) == [fld \in (IF k \in PlainKeys THEN Fields \ ExecFields ELSE Fields) |-> Abs(fld, r[fld])]
-SpecOut(c) == [a |-> [k \in Keys |-> SpecText(c.a, k)], b |-> [k \in Keys |-> SpecText(c.b, k)]]
+SpecText(r, v, k) == <<[fld \in (IF k \in PlainKeys THEN Fields \ ExecFields ELSE Fields) |-> Abs(fld, r[fld])],
+                        IF k \in RootKeys THEN RootRev(r, v) ELSE "">>
+SpecOut(c) == [a |-> [k \in Keys |-> SpecText(c.a, c.va, k)], b |-> [k \in Keys |-> SpecText(c.b, c.vb, k)]]
 =============================================================================
